@@ -34,12 +34,15 @@ def run(ctx, model):
             reqs.append(rng.choice(reqs))                # duplicates
         case = {"seed": ctx.seed, "index": i, "project": lx.project_summary(p), "large_connection": large,
                 "micro800": p.get("micro800", False), "tags": [r[0] for r in reqs]}
+        f0 = len(sess.sock.frames)
         try:
-            res = core.with_budget(60, sess.d.read, *[r[0] for r in reqs])
+            res = core.with_budget(300, sess.d.read, *[r[0] for r in reqs])
         except BaseException as e:  # noqa
             if isinstance(e, (KeyboardInterrupt, SystemExit)):
                 raise
-            ctx.violation("read-raises:" + core.exn_class(e), case, repr(e)[:300])
+            sent = sess.sock.frames[f0:]
+            ctx.violation("read-raises:" + core.exn_class(e), case, "%s after %d frames of this call; the last ones: %s" % (
+                repr(e)[:200], len(sent), [f[44:70].hex() for f in sent[-3:]]))
             sess.close()
             continue
         res = res if isinstance(res, list) else [res]
@@ -92,7 +95,7 @@ def run_near_limit(ctx, model):
                     case = {"connection_size": C, "tag_bytes": size, "element_bytes": step, "position": pos, "tags": tags,
                             "element": "SINT" if elem is None else "%d-byte struct" % elem}
                     try:
-                        res = core.with_budget(120, sess.d.read, *tags)
+                        res = core.with_budget(300, sess.d.read, *tags)
                     except BaseException as e:  # noqa
                         if isinstance(e, (KeyboardInterrupt, SystemExit)):
                             raise
